@@ -241,6 +241,9 @@ def run(cx):
     inst_fragment_flags(cx, "C15.l")
     from props.shared import forget_shape
     forget_shape(cx, "C15.m")
+    from props.shared import cull_always_drains, nofeedback_timer_writers
+    cull_always_drains(cx, "C15.n")
+    nofeedback_timer_writers(cx, "C15.o")
 
 
 def group_width(cx, iid):
